@@ -40,7 +40,14 @@ class McmcPersonalizeAlgorithm(
     def _compute_individual_parameters(
         self, model: McmcSaemCompatibleModel, dataset: Dataset, **kwargs
     ) -> IndividualParameters:
-        individual_parameters = self._get_individual_parameters(model, dataset)
+        # the sampling runs on the state of the model itself: if it fails (e.g. on data that do not fit the model),
+        # the model gets back the state it had, so that nothing of the failed call stays behind
+        state_before_call = model.state.clone()
+        try:
+            individual_parameters = self._get_individual_parameters(model, dataset)
+        except Exception:
+            model.state = state_before_call
+            raise
         local_state = model.state.clone(disable_auto_fork=True)
         model.put_data_variables(local_state, dataset)
         _, pyt_individual_parameters = individual_parameters.to_pytorch()
